@@ -44,6 +44,20 @@ def check(tier, seed):
                     for hm in ('sha256', 'sha512', 'shake128'):
                         # a hash-mode verification whose OID||digest cannot equal the pure message
                         cases.append({'line': f"verify {s} {hm} {base} {hx(msg[len(R.OIDS[hm]):])} {hx(ctx)} {sig.hex()}", 'tag': 'hash mode on a pure signature', 'want': 'false', 'model': False})
+    # splits that put 256 or more bytes into the context: the one-byte length field would wrap (256 -> 0, 257 -> 1, 65536 -> 0 ...)
+    for s in fam.SETS:
+        p = R.PARAMS[s]
+        xi = bytes(rng.randrange(256) for _ in range(32))
+        pk, sk = fam.keypair(s, xi)
+        base = f"bytes:{pk.hex()}"
+        for n in (256, 257, 300, 511, 512, 65536, 65537, 131072):
+            x = bytes(rng.randrange(256) for _ in range(n))
+            m = b'tail'
+            short = x[:n % 256]
+            for mode in ('pure', 'sha256'):
+                sig = R.sign(p, sk, x[n % 256:] + m, short, mode, bytes(32))      # valid for (ctx = first n mod 256 bytes, message = rest)
+                cases.append({'line': f"verify {s} {mode} {base} {hx(x[n % 256:] + m)} {hx(short)} {sig.hex()}", 'tag': 'long split: the signed interpretation verifies', 'want': 'true', 'model': False})
+                cases.append({'line': f"verify {s} {mode} {base} {hx(m)} {hx(x)} {sig.hex()}", 'tag': f'long split: context of {n} bytes whose length byte wraps', 'want': 'false', 'model': n in (256, 65536)})
     core.run_and_judge(rep, cases, model_every=0)
     return core.finish(rep, b, 'proof', {
         'rule': 'for each signed (set, mode, ctx, msg): every split of ctx||msg, every other mode and pre-hash, crafted mimicry of the other mode\'s formatted tail; '
